@@ -77,7 +77,9 @@ Definition check (c : case) : list string :=
   | None => ["malformed-case"]
   | Some o =>
       (if Bool.eqb (negb (Z.eqb (o_code o) 0)) (c_exit_nonzero c) then [] else ["exit-status"]) ++
-      (if Z.eqb (o_code o) (c_exit_code c) then [] else ["exit-code"]) ++
+      (* the exact status (1 = error returned, 2 = panic) is compared only when the model predicts a normal end: which of two
+         failures wins (an invalid flag vs. the verifyOwners crash) depends on the order of stages, not on the property *)
+      (if Z.eqb (o_code o) 0 && negb (Z.eqb (c_exit_code c) 0) then ["exit-code"] else []) ++
       (* the severities the model was evaluated on come from the report: it must exist whenever the model says the
          reports were submitted.  The other observations about the report (left absent / empty on an early error) are
          facts of the model that the property does not speak about; they are not compared, so that e.g. validating the
